@@ -152,19 +152,25 @@ pub fn spec_cksm(s: &[u8], n: u32, w: u32, ls: u32) -> u16 {
 // ---------------------------------------------------------------- recording hash (DESIGN 2.3)
 // A HashChain implementation whose every finalisation logs the absorbed pre-image and returns a FRESH unconstrained
 // value. Contracts are stated over the log (number of calls, exact pre-image bytes of call k, where output k flows), so
-// they hold for every hash function. The crate forbids unsafe code, hence atomics for the log.
-use core::sync::atomic::{AtomicU8, AtomicUsize, Ordering};
+// they hold for every hash function. The crate forbids unsafe code, hence atomics for the log; the log is packed into
+// u64 words (8 bytes per atomic) because every loop iteration and every check costs CBMC/Kani time.
+use core::sync::atomic::{AtomicU64, AtomicU8, AtomicUsize, Ordering};
 use digest::{typenum::U32, FixedOutput, Output, OutputSizeUser, Update};
 
 // log sizes matter: CBMC's cost grows with the size of these statics, so the default is small and the harnesses that need
 // more (whole 32-leaf tree, w=1 chains) run in a configuration that passes --cfg kani_biglog
 #[cfg(not(kani_biglog))]
-pub const REC_LOG_BYTES: usize = 2048;
+pub const REC_LOG_WORDS: usize = 320;
 #[cfg(kani_biglog)]
-pub const REC_LOG_BYTES: usize = 9216;
-static REC_LOG: [AtomicU8; REC_LOG_BYTES] = [const { AtomicU8::new(0) }; REC_LOG_BYTES];
+pub const REC_LOG_WORDS: usize = 1280;
+static REC_LOG: [AtomicU64; REC_LOG_WORDS] = [const { AtomicU64::new(0) }; REC_LOG_WORDS];
 static REC_COUNT: AtomicUsize = AtomicUsize::new(0);
 
+fn w64(b: &[u8], off: usize) -> u64 {
+    u64::from_le_bytes([b[off], b[off + 1], b[off + 2], b[off + 3], b[off + 4], b[off + 5], b[off + 6], b[off + 7]])
+}
+
+/// CAP (pre-image capacity in bytes) must be a multiple of 8
 #[derive(Clone, Debug)]
 pub struct RecHash<const N: usize, const CAP: usize> {
     buf: [u8; CAP],
@@ -182,22 +188,23 @@ impl<const N: usize, const CAP: usize> PartialEq for RecHash<N, CAP> {
     }
 }
 impl<const N: usize, const CAP: usize> RecHash<N, CAP> {
-    const STRIDE: usize = CAP + 2 + 32;
+    /// words per log entry: length, CAP/8 pre-image words, 4 output words
+    const STRIDE: usize = 1 + CAP / 8 + 4;
     fn record(&mut self) -> [u8; 32] {
+        assert!(CAP % 8 == 0, "harness sizing: CAP multiple of 8");
         let k = REC_COUNT.load(Ordering::Relaxed);
-        assert!((k + 1) * Self::STRIDE <= REC_LOG_BYTES, "recording-hash log overflow (harness sizing)");
+        assert!((k + 1) * Self::STRIDE <= REC_LOG_WORDS, "recording-hash log overflow (harness sizing)");
         let base = k * Self::STRIDE;
-        REC_LOG[base].store((self.len >> 8) as u8, Ordering::Relaxed);
-        REC_LOG[base + 1].store((self.len & 0xff) as u8, Ordering::Relaxed);
+        REC_LOG[base].store(self.len as u64, Ordering::Relaxed);
         let mut i = 0;
-        while i < CAP {
-            REC_LOG[base + 2 + i].store(self.buf[i], Ordering::Relaxed);
+        while i < CAP / 8 {
+            REC_LOG[base + 1 + i].store(w64(&self.buf, 8 * i), Ordering::Relaxed);
             i += 1;
         }
         let out: [u8; 32] = kani::any();
         i = 0;
-        while i < 32 {
-            REC_LOG[base + 2 + CAP + i].store(out[i], Ordering::Relaxed);
+        while i < 4 {
+            REC_LOG[base + 1 + CAP / 8 + i].store(w64(&out, 8 * i), Ordering::Relaxed);
             i += 1;
         }
         REC_COUNT.store(k + 1, Ordering::Relaxed);
@@ -214,11 +221,11 @@ impl<const N: usize, const CAP: usize> RecHash<N, CAP> {
     /// pre-image of call k: (length, bytes zero-padded to CAP)
     pub fn pre(k: usize) -> (usize, [u8; CAP]) {
         let base = k * Self::STRIDE;
-        let len = ((REC_LOG[base].load(Ordering::Relaxed) as usize) << 8) | REC_LOG[base + 1].load(Ordering::Relaxed) as usize;
+        let len = REC_LOG[base].load(Ordering::Relaxed) as usize;
         let mut b = [0u8; CAP];
         let mut i = 0;
-        while i < CAP {
-            b[i] = REC_LOG[base + 2 + i].load(Ordering::Relaxed);
+        while i < CAP / 8 {
+            b[8 * i..8 * i + 8].copy_from_slice(&REC_LOG[base + 1 + i].load(Ordering::Relaxed).to_le_bytes());
             i += 1;
         }
         (len, b)
@@ -228,8 +235,8 @@ impl<const N: usize, const CAP: usize> RecHash<N, CAP> {
         let base = k * Self::STRIDE;
         let mut b = [0u8; 32];
         let mut i = 0;
-        while i < 32 {
-            b[i] = REC_LOG[base + 2 + CAP + i].load(Ordering::Relaxed);
+        while i < 4 {
+            b[8 * i..8 * i + 8].copy_from_slice(&REC_LOG[base + 1 + CAP / 8 + i].load(Ordering::Relaxed).to_le_bytes());
             i += 1;
         }
         b
@@ -237,27 +244,13 @@ impl<const N: usize, const CAP: usize> RecHash<N, CAP> {
     /// true iff call k absorbed exactly `expect`
     pub fn pre_is(k: usize, expect: &[u8]) -> bool {
         let (len, b) = Self::pre(k);
-        if len != expect.len() {
-            return false;
-        }
-        let mut i = 0;
-        while i < expect.len() {
-            if b[i] != expect[i] {
-                return false;
-            }
-            i += 1;
-        }
-        true
+        len == expect.len() && b[..expect.len()] == *expect
     }
 }
 impl<const N: usize, const CAP: usize> Update for RecHash<N, CAP> {
     fn update(&mut self, data: &[u8]) {
         assert!(self.len + data.len() <= CAP, "recording-hash buffer overflow (harness sizing)");
-        let mut i = 0;
-        while i < data.len() {
-            self.buf[self.len + i] = data[i];
-            i += 1;
-        }
+        self.buf[self.len..self.len + data.len()].copy_from_slice(data);
         self.len += data.len();
     }
 }
@@ -294,7 +287,7 @@ pub const CHAIN_LOG_ENTRIES: usize = 40;
 pub const CHAIN_LOG_ENTRIES: usize = 300;
 static CHAIN_COUNT: AtomicUsize = AtomicUsize::new(0);
 static CHAIN_META: [AtomicUsize; CHAIN_LOG_ENTRIES * 3] = [const { AtomicUsize::new(0) }; CHAIN_LOG_ENTRIES * 3];
-static CHAIN_VALS: [AtomicU8; CHAIN_LOG_ENTRIES * 64] = [const { AtomicU8::new(0) }; CHAIN_LOG_ENTRIES * 64];
+static CHAIN_VALS: [AtomicU64; CHAIN_LOG_ENTRIES * 8] = [const { AtomicU64::new(0) }; CHAIN_LOG_ENTRIES * 8];
 static CHAIN_HDR: [AtomicU8; 20] = [const { AtomicU8::new(0) }; 20];
 
 #[derive(Clone, Debug, Default, PartialEq)]
@@ -325,8 +318,8 @@ impl<const N: usize, const CAP: usize> RecHashC<N, CAP> {
     pub fn chain_start(k: usize) -> [u8; 32] {
         let mut b = [0u8; 32];
         let mut i = 0;
-        while i < 32 {
-            b[i] = CHAIN_VALS[64 * k + i].load(Ordering::Relaxed);
+        while i < 4 {
+            b[8 * i..8 * i + 8].copy_from_slice(&CHAIN_VALS[8 * k + i].load(Ordering::Relaxed).to_le_bytes());
             i += 1;
         }
         b
@@ -334,8 +327,8 @@ impl<const N: usize, const CAP: usize> RecHashC<N, CAP> {
     pub fn chain_out(k: usize) -> [u8; 32] {
         let mut b = [0u8; 32];
         let mut i = 0;
-        while i < 32 {
-            b[i] = CHAIN_VALS[64 * k + 32 + i].load(Ordering::Relaxed);
+        while i < 4 {
+            b[8 * i..8 * i + 8].copy_from_slice(&CHAIN_VALS[8 * k + 4 + i].load(Ordering::Relaxed).to_le_bytes());
             i += 1;
         }
         b
@@ -393,9 +386,14 @@ impl<const N: usize, const CAP: usize> HashChain for RecHashC<N, CAP> {
         CHAIN_META[3 * k].store(hash_chain_id as usize, Ordering::Relaxed);
         CHAIN_META[3 * k + 1].store(from, Ordering::Relaxed);
         CHAIN_META[3 * k + 2].store(to, Ordering::Relaxed);
+        let mut start = [0u8; 32];
+        start[..N].copy_from_slice(initial_value);
+        // contract: from == to returns the start value unchanged, otherwise a value about which nothing is known
+        let out: [u8; 32] = if from == to { start } else { kani::any() };
         let mut i = 0;
-        while i < N {
-            CHAIN_VALS[64 * k + i].store(initial_value[i], Ordering::Relaxed);
+        while i < 4 {
+            CHAIN_VALS[8 * k + i].store(w64(&start, 8 * i), Ordering::Relaxed);
+            CHAIN_VALS[8 * k + 4 + i].store(w64(&out, 8 * i), Ordering::Relaxed);
             i += 1;
         }
         i = 0;
@@ -403,24 +401,7 @@ impl<const N: usize, const CAP: usize> HashChain for RecHashC<N, CAP> {
             CHAIN_HDR[i].store(hc_data[i], Ordering::Relaxed);
             i += 1;
         }
-        let out: [u8; 32] = kani::any();
-        i = 0;
-        while i < 32 {
-            CHAIN_VALS[64 * k + 32 + i].store(out[i], Ordering::Relaxed);
-            i += 1;
-        }
         CHAIN_COUNT.store(k + 1, Ordering::Relaxed);
-        // contract: from == to returns the start value unchanged, otherwise a value about which nothing is known
-        if from == to {
-            let mut same = [0u8; 32];
-            same[..N].copy_from_slice(initial_value);
-            i = 0;
-            while i < 32 {
-                CHAIN_VALS[64 * k + 32 + i].store(same[i], Ordering::Relaxed);
-                i += 1;
-            }
-            return ArrayVec::from_array_len(same, N);
-        }
         ArrayVec::from_array_len(out, N)
     }
 }
